@@ -60,15 +60,15 @@ Profile profile_for(const std::string &c) {
         set(p.w_script, {{BATCH, 16}, {MSG, 36}, {LIFE, 8}, {CTX, 8}, {ENV, 6}, {TB, 1}});
         p.mod_flag_bits = 0; p.src_kinds = 1 | 2; p.src_flag_bits = 0; p.sub_flag_bits = 16 | 32 | 64;
     } else if (c == "C15") {
-        set(p.w_driver, {{REG, 24}, {LIFE, 20}, {MSG, 20}, {SUBS, 14}, {CTX, 10}});
-        set(p.w_script, {{REG, 10}, {LIFE, 24}, {MSG, 24}, {SUBS, 16}, {CTX, 24}});
+        set(p.w_driver, {{REG, 24}, {LIFE, 20}, {MSG, 20}, {SUBS, 14}, {CTX, 10}, {TB, 2}});   // (with a token bucket a denied call that is charged shows up as a later refusal)
+        set(p.w_script, {{REG, 10}, {LIFE, 24}, {MSG, 24}, {SUBS, 16}, {CTX, 24}, {TB, 1}});
         p.mod_flag_bits = 1 | 2 | 4 | 16 | 32 | 64; p.src_kinds = 0; p.bad_topics = true; p.hooks_all = true;
     } else if (c == "C16") {
-        set(p.w_driver, {{MSG, 44}, {SUBS, 12}, {LIFE, 10}, {STASH, 14}, {BECOME, 4}, {SRC, 8}, {ENV, 8}});
+        set(p.w_driver, {{MSG, 44}, {SUBS, 12}, {LIFE, 10}, {STASH, 14}, {BECOME, 4}, {SRC, 8}, {ENV, 8}, {TB, 2}});
         set(p.w_script, {{STASH, 50}, {MSG, 22}, {LIFE, 8}, {CTX, 8}, {BECOME, 6}, {ENV, 4}});
         p.mod_flag_bits = 0; p.src_kinds = 1 | 2; p.src_flag_bits = 1 | 32; p.sub_flag_bits = 1 | 16 | 32 | 64;   // one-shot and high-priority sources too: their events must not be stashable
     } else if (c == "C17") {
-        set(p.w_driver, {{MSG, 44}, {BECOME, 30}, {LIFE, 16}, {STASH, 6}});
+        set(p.w_driver, {{MSG, 44}, {BECOME, 30}, {LIFE, 16}, {STASH, 6}, {TB, 3}});   // (a refused become/unbecome must leave the stack alone)
         set(p.w_script, {{BECOME, 44}, {MSG, 26}, {LIFE, 12}, {CTX, 8}, {STASH, 8}});
         p.mod_flag_bits = 0; p.src_kinds = 0; p.sub_flag_bits = 0;
     } else if (c == "C18") {
